@@ -11,6 +11,8 @@ CLAIMED = {
          "binary.PutVarint/Varint and PutUvarint/Uvarint trusted as mutually inverse abstract encodings of 1..10 bytes (ghost model; encoded bytes assumed not overwritten before decoding)"),
  "C05": ("Fold functions total (no division/shift panic) for all operands; MakeInstruction proved for every opcode (an instruction is produced iff the operands fit the opcode's operand table read from the source, it has the table's length and decodes back to the same operands) and ReadOperands proved against the same decoding spec; operand-table arity lemma. Not decided: the emitter's reaction to operand overflow (panic(err) in emit/changeOperand is a known open issue not yet under contract), parser and scanner totality, termination.",
          "OpcodeOperands read mechanically from its initialiser (checked: never assigned outside init); fmt.Errorf returns non-nil"),
+ "C13": ("Root symbol table mechanism: Resolve returns a builtin symbol only for a name that is not disabled, keeps the table invariant (a cached builtin symbol exists only for names that are not disabled) and does not touch the disabled set; DisableBuiltin adds every given name to the disabled set and re-establishes the invariant (loop with quantified invariants over the maps); root and isBuiltinDisabled against the ghost root function. Not decided: Resolve through nested (forked) tables, propagation of the disabled set into module tables and the optimizer's evaluator, the compiler's emission sites of GETBUILTIN.",
+         "rootOf is a ghost function defined by axioms over parent links, assumed never reassigned"),
  "C15": ("Equal and BinaryOp of Int, Uint, Float, Char, Bool, String, Bytes, undefined proved against specEq/specArith/specOrder for all operand values (bit-vector/IEEE semantics), errors are ZeroDivisionError/TypeError and never a panic; symmetry, trichotomy and derived-order lemmas over the spec; xOpUnary. Not decided: arrays/maps/errors Equal, the VM's OpEqual/OpNotEqual arms.",
          "dynamic TypeName()/String() calls assumed panic-free; interface-level dispatch closed over the listed kinds"),
  "C18": ("Safety sweep with thin contracts of the version 2 decoder: toVarint, readByteFrom, varintConv.read/readBytes, DecodeObject, decodeBytecodeV2, Bytecode.UnmarshalBinary and the UnmarshalBinary methods of every constant kind, function kinds, SourceFile and SourceFileSet: no index, slice, nil, type-assertion, division or make panic for arbitrary input bytes and readers, and every allocation whose size is not a constant is bounded by 1 MiB or by the input bytes in hand (len of the input slice / Len() of the reader). Not decided: the version 1 converter (assumed contract, excluded from the claim), gob fallback, three parked obligations (builtin table contents, DecodeObject non-nil result).",
@@ -27,7 +29,6 @@ NA = {
  "C10": "relates two compilation histories (N fragments vs one concatenation); no per-function contract expresses it",
  "C11": "the converter's relocation contract (loop invariant over the instruction stream) is not discharged yet; MakeInstruction/ReadOperands, which it relies on, are proved under C05; the relocation defect itself was repaired (fix: commit)",
  "C12": "module store / LOADMODULE-STOREMODULE contracts not built yet",
- "C13": "symbol-table invariant contracts not built yet",
  "C14": "binding equivalence contracts (initLocals vs xOpCallCompiled) not built yet",
  "C17": "oracle is encoding/json itself; stating it as contracts means formalising that implementation (string/sequence reasoning outside the solvers' reach)",
  "C19": "builtin safety sweep not built yet",
